@@ -46,6 +46,9 @@ def cells_events(rec, nfl):
         # non-positive values in some channels only (which ones depends on the seed), strictly positive in the others
         if n > 300 and (rec['seed'] >> j) & 1 == 0:
             fl[j][265:270] = [-5.0, 0.0, -0.5, -(20.0 + rec['seed'] % 200), 0.0]     # the most negative event differs from file to file
+            if rec.get('tiny_neg'):
+                # ... or is tiny compared with the range (the logicle width derived from it is floored at 0)
+                fl[j][265:275] = [-0.001, 0.0, -0.0005, 0.0, -0.002, -0.001, -0.0015, 0.0, -0.001, -0.0008]
     fsc = np.clip(fsc, 1, None)
     ssc = np.clip(ssc, 1, None)
     if n > 300 and rec['seed'] % 2 == 1:
